@@ -668,7 +668,45 @@ static void hist_child(const void *job, size_t n) {
 	res_printf("S %llx %llx\n", (unsigned long long) h.a, (unsigned long long) h.b);
 	res_finish();
 }
-void c07_register(void) { harness_register("c07.sweep", sweep_child); harness_register("c07.hist", hist_child); }
+/* ================================================================= c07.sched (E1): no report is lost under contention
+ * "At any quiescent moment the state equals the fold of EVERY feedback message received": the receiver processes one report of
+ * each kind while an application thread reads the whole state (snapshot and single getters — every state mutex is taken by the
+ * reader at some point).  All schedules with <= 1 (thorough 2) preemptions; afterwards, at quiescence, the state must be the fold
+ * including that report.  (A handler that gives up when it finds a mutex busy drops the report only under such a schedule.) */
+static act_t sched_templates(int k, int *n) {
+	act_t T[] = { UP(B_MASTER, MSG_BM_OCC, 0), UP(B_MASTER, MSG_BM_ADDRESS, 0, T1L, T1H), UP(B_MASTER, MSG_BM_CURRENT, 0, 100), UP(B_MASTER, MSG_BM_CONFIDENCE, 1, 0, 1), UP(B_MASTER, MSG_BM_SPEED, T1L, T1H, 0x50, 0x00),
+		UP(B_MASTER, MSG_BM_DYN_STATE, 0, T1L, T1H, 1, 5), UP(B_MASTER, MSG_BOOST_STAT, 0x80), UP(B_MASTER, MSG_BOOST_DIAGNOSTIC, 0, 0x40, 1, 0x90, 2, 0x19), UP(B_BOOSTER2, MSG_BOOST_DIAGNOSTIC, 1, 0x70, 0, 0x20),
+		UP(B_MASTER, MSG_CS_STATE, 0x00), UP(B_MASTER, MSG_CS_DRIVE_ACK, T1L, T1H, 1), UP(B_MASTER, MSG_CS_ACCESSORY_ACK, 0x22, 0x11, 2), UP(B_MASTER, MSG_CS_DRIVE_MANUAL, T1L, T1H, 3, 0x03, 0x8B, 0x11, 0, 0, 0),
+		UP(B_MASTER, MSG_CS_ACCESSORY_MANUAL, 0x22, 0x11, 0x20), UP(B_OC1, MSG_ACCESSORY_STATE, 2, 0, 2, 1, 5), UP(B_LC1, MSG_ACCESSORY_STATE, 0x10, 1, 2, 0, 0), UP(B_LC1, MSG_LC_STAT, 0x23, 0x01, 1), UP(B_LC1, MSG_LC_WAIT, 0x24, 0x01, 0x85), vendor(B_MASTER, "30051", "3") };
+	*n = (int) (sizeof T / sizeof T[0]); return T[k < *n ? k : 0]; }
+static void *sched_reader(void *arg) { (void) arg; static char buf[1 << 15]; sd_dump(buf, sizeof buf); sd_dump(buf, sizeof buf); return NULL; }
+static void sched_child(const void *job, size_t n) {
+	vs_dev_t devs[VS_MAXDEV]; int nd; size_t pl; const uint8_t *p = job_parse(job, n, devs, &nd, &pl);
+	int k = p[0], nt; act_t a = sched_templates(k, &nt);
+	hx_child_begin(devs, nd, 1, NULL, 0, 0);
+	if (getenv("VERIF_LOG")) env_log_to_stderr = 1;
+	cm_std(&M); cm_install(&M); hook_on = 0; nrq = 0; SB.on_msg = bus_hook;
+	if (hx_start_normal(0)) res_infra("normal start failed");
+	hx_quiesce(); bidib_flush(); hx_quiesce(); drain();
+	hook_on = 1; rs_init(&R, &M); for (int b = 0; b < M.nb; b++) cm_board_addr(&M, b, BADDR[b]);
+	char de[220], what[300]; describe(&a, de, sizeof de); snprintf(what, sizeof what, "%s processed while a reader takes every state lock", de);
+	/* queue the report (no scheduling point), let the reader and the receiver race */
+	rs_apply(&R, a.node, a.type, a.d, a.dl);
+	if (a.type == MSG_ACCESSORY_NOTIFY && a.dl >= 2) SB.n[M.b[a.node].sbnode].acc_aspect[a.d[0]] = a.d[1];
+	sb_send(M.b[a.node].sbnode, a.type, a.d, a.dl);
+	vs_unlock_points = 2;      /* the receiver may meet a state mutex HELD by the reader (a handler that only tries the lock gives up then) */
+	vs_window(1);
+	int t = vs_spawn(sched_reader, NULL); vs_join_tid(t); hx_quiesce();
+	vs_window(0);
+	vs_unlock_points = 0;
+	drain(); settle2();
+	compare(tname(a.kind, a.type), what);
+	hx_emit_ledger_violations("C07");
+	sd_dump(LIBD, sizeof LIBD); hx_hash_t h; hx_hash_init(&h); hx_hash_str(&h, LIBD);
+	res_printf("O %llx %llx\n", (unsigned long long) h.a, (unsigned long long) h.b);
+	hx_emit_trace(); res_finish();
+}
+void c07_register(void) { harness_register("c07.sched", sched_child); harness_register("c07.sweep", sweep_child); harness_register("c07.hist", hist_child); }
 int c07_run(const char *tier) {
 	int thorough = !strcmp(tier, "thorough");
 	nch = 0; long total = 0;
@@ -682,6 +720,13 @@ int c07_run(const char *tier) {
 	e2_spec_t s1 = { .harness = "c07.hist", .param = param1, .nparam = 1, .nevents = NSUBSET, .max_depth = d ? atoi(d) : 8, .label = "c07.hist(shared-entity events)", .evname = hevname };
 	hev_alpha = 0; if (!only || only[0] == '0') e2_explore(&s);
 	if (thorough) { hev_alpha = 1; if (!only || only[0] == '1') e2_explore(&s1); hev_alpha = 0; }
+	/* every kind of report against a reader that takes every state lock */
+	{ int nt = 0; sched_templates(0, &nt); long sch = 0; int schex = 1;
+	  for (int k = 0; k < nt; k++) { uint8_t sp[1] = {(uint8_t) k}; act_t a = sched_templates(k, &nt); char label[120]; snprintf(label, sizeof label, "c07.sched %s || reader", tname(a.kind, a.type));
+		e1_spec_t es = { .harness = "c07.sched", .param = sp, .nparam = 1, .bound = thorough ? 2 : 1, .label = strdup(label) };
+		e1_explore(&es); for (int q = 0; q < 8; q++) sch += es.schedules_by_cost[q]; if (!es.exhaustive) schex = 0; }
+	  rep_note("c07.sched: %d report kinds, each processed while a reader takes every state lock: %ld schedules, preemption bound %d", nt, sch, thorough ? 2 : 1);
+	  s.execs += sch; s.transitions += sch; if (!schex) s.exhaustive = 0; }
 	/* the optimistic effect of the user's own commands when two threads issue them concurrently (harness shared with C10/H6):
 	 * tracked state and a decoder model folded over the wire equal one of the two sequential orders */
 	{ extern void c10_run_lin(int bound, long *execs, long *states, long *transitions, int *exhaustive); long le = 0, ls = 0, lt = 0; int lex = 1;
